@@ -53,10 +53,19 @@ def rule_dom(run):
     for r in walk_no_nested(fi.node):
         if isinstance(r, ast.Return) and isinstance(r.value, ast.Name) and r.value.id not in fi.params:
             carriers.add(r.value.id)
+    # a carrier whose every return is itself under <carrier>.contains_point(pos) is decided there, not where it is bound
+    for cv in sorted(carriers):
+        rets_ = [r for r in walk_no_nested(fi.node) if isinstance(r, ast.Return) and isinstance(r.value, ast.Name) and r.value.id == cv]
+        if rets_ and all(any(inb and _contains_test(i.test, cv, pos) for i, inb in _dominating_ifs(pm, r, fi.node)) for r in rets_):
+            carriers.discard(cv)
+            for r in rets_:
+                n_ret += 1
+                run.ok('mulgrid.column_containing_point :: return %s' % cv, 'under %s.contains_point(%s)' % (cv, pos), where=fi.where(r))
+    decided_here = set(r.value.id for r in walk_no_nested(fi.node) if isinstance(r, ast.Return) and isinstance(r.value, ast.Name)) - carriers - set(fi.params)
     for n in walk_no_nested(fi.node):
         val, what = None, None
         if isinstance(n, ast.Return) and n.value is not None:
-            if isinstance(n.value, ast.Name) and n.value.id in carriers: continue
+            if isinstance(n.value, ast.Name) and (n.value.id in carriers or n.value.id in decided_here): continue
             val, what = n.value, 'return'
         elif isinstance(n, ast.Assign) and isinstance(n.targets[0], ast.Name) and n.targets[0].id in carriers:
             val, what = n.value, 'assignment to ' + n.targets[0].id
@@ -204,13 +213,20 @@ def rule_dom(run):
     for i, c in enumerate(apps):
         key = 'mulgrid.column_track :: track.append #%d' % i
         doms = [norm(j.test) for j, inb in _dominating_ifs(pm4, c, ct.node) if inb]
+        # being in the else branch of `if len(pts) == 0: continue` (a flattened loop body) establishes the same as `if len(pts) > 0:`
+        for j, inb in _dominating_ifs(pm4, c, ct.node):
+            if not inb and isinstance(j.test, ast.Compare) and len(j.test.ops) == 1 and isinstance(j.test.ops[0], ast.Eq) and \
+               isinstance(j.test.left, ast.Call) and call_name(j.test.left) == 'len' and norm(j.test.comparators[0]) == '0':
+                doms.append('%s > 0' % norm(j.test.left))
+            elif not inb and isinstance(j.test, ast.UnaryOp) and isinstance(j.test.op, ast.Not): doms.append(norm(j.test.operand))
+            elif not inb: doms.append('not (%s)' % norm(j.test))
         colv = norm(c.args[0].elts[0]) if isinstance(c.args[0], ast.Tuple) else None
         if 'len(pts) > 0' in doms or any(t.startswith('col == start_col == end_col') for t in doms):
             run.ok(key, {'guards': doms}, where=ct.where(c))
         else:
             # a violation only if every guard is one we understand *not* to establish a crossing (the bounding-box pre-filter,
             # the clip-length test); a guard of another shape (a helper's result, ...) leaves it undecided
-            weak = [t for t in doms if t.startswith('line_intersects_rectangle(') or 'col_tol' in t or t in ('True',)]
+            weak = [t for t in doms if t.startswith('line_intersects_rectangle(') or t.startswith('not (') or 'col_tol' in t or t in ('True',)]
             if len(weak) == len(doms):
                 run.violated(key, 'column %s is appended to the track under %s, i.e. without the line having crossed its polygon '
                              'or containing both end points' % (colv, doms), where=ct.where(c))
